@@ -144,7 +144,11 @@ class C19(Prop):
                     # JSON-representable values that are falsy in Python
                     for k in rng.sample(["zero", "fzero", "empty", "nolist", "flag"], rng.randint(1, 3)):
                         meta[k] = {"zero": 0, "fzero": 0.0, "empty": "", "nolist": [], "flag": False}[k]
-                yield {"op": "json", "array": gen.clean(arr), "meta": meta}
+                c = {"op": "json", "array": gen.clean(arr), "meta": meta}
+                if rng.random() < 0.3:
+                    # an entry that json cannot represent, set BEFORE the others: it may be dropped, the others may not
+                    c["unrepresentable_first"] = rng.choice(["ndarray", "set", "float32"])
+                yield c
             else:
                 fmt = rng.choice(["NETCDF4", "NETCDF4", "NETCDF3_CLASSIC"])
                 dd = gen_ds(rng, netcdf3=fmt.startswith("NETCDF3"))
@@ -163,6 +167,8 @@ class C19(Prop):
             warnings.simplefilter("ignore")
             if c["op"] == "json":
                 a = core.build_array(c["array"], 0)
+                if c.get("unrepresentable_first"):
+                    a.attrs["weights"] = {"ndarray": np.arange(3.), "set": {1, 2}, "float32": np.float32(1.5)}[c["unrepresentable_first"]]
                 for k, v in c["meta"].items():
                     a.attrs[k] = copy.deepcopy(v)
                 before = obs(a)
@@ -185,6 +191,7 @@ class C19(Prop):
             before = obs_dataset(ds)
             expected = dict(before["vars"])
             extra_before = {}
+            ds_attrs_added = {}
 
             def run():
                 ds.write_nc(path, format=c["format"])
@@ -198,7 +205,10 @@ class C19(Prop):
                     elif st["how"] == "dimarray_a+":
                         a.write_nc(path, st["key"], mode="a+")
                     elif st["how"] in ("dataset_a", "dataset_a+"):
-                        Dataset({st["key"]: a}).write_nc(path, mode=st["how"][8:])
+                        d2 = Dataset({st["key"]: a})
+                        d2.attrs["appended_" + st["key"]] = "yes"          # dataset-level metadata of the appended dataset
+                        ds_attrs_added["appended_" + st["key"]] = "yes"
+                        d2.write_nc(path, mode=st["how"][8:])
                     else:
                         f = da.open_nc(path, mode="a")
                         f[st["key"]] = a
@@ -210,6 +220,7 @@ class C19(Prop):
             out = core.guarded(run)
             out["input"] = before
             out["expected_vars"] = expected
+            out["expected_ds_attrs"] = dict(before["attrs"], **ds_attrs_added)
             if obs_dataset(ds) != before:
                 out["operand_modified"] = True
             try:
@@ -248,7 +259,11 @@ class C19(Prop):
                     prop_bad.append("json." + k)
             if [(x["name"], [lab_key(l) for l in x["labels"]]) for x in back["axes"]] != [(x["name"], [lab_key(l) for l in x["labels"]]) for x in inp["axes"]]:
                 prop_bad.append("json.labels")
-            if back.get("attrs_py") != inp.get("attrs_py"):
+            want_attrs = dict(inp.get("attrs_py") or {})
+            got_attrs = dict(back.get("attrs_py") or {})
+            if c.get("unrepresentable_first"):
+                want_attrs.pop("weights", None); got_attrs.pop("weights", None)     # representable metadata is what must survive
+            if got_attrs != want_attrs:
                 prop_bad.append("json.attrs")
             t = o["text"]
             if t.get("dims") != inp["dims"] or t.get("shape") != inp["shape"] or t.get("ndim") != len(inp["dims"]):
@@ -281,7 +296,7 @@ class C19(Prop):
                     prop_bad.append("nc.append_lost:" + k)
                 else:
                     prop_bad += self.cmp_var(final["vars"][k], want, "nc.final." + k, n3)
-            if final["attrs"] != inp["attrs"]:
+            if final["attrs"] != io.get("expected_ds_attrs", inp["attrs"]):
                 prop_bad.append("nc.final.dataset_attrs")
         if io.get("operand_modified"):
             prop_bad.append("operand_modified")
